@@ -14,7 +14,8 @@ use vcore::report::{Report, hex};
 
 fn ids(thorough: bool) -> Vec<RefVal> {
     let mut v = vec![];
-    let nodes: &[&str] = if thorough { &["n@h", "nöde@hôst", "a"] } else { &["n@h", "nöde@hôst"] };
+    // (the third name's Latin-1 bytes C3 A9 .. are also well-formed UTF-8 - of another name)
+    let nodes: &[&str] = if thorough { &["n@h", "nöde@hôst", "Ã©x@hÃ©", "a"] } else { &["n@h", "nöde@hôst", "Ã©x@hÃ©"] };
     for node in nodes {
         for &(id, serial, creation) in &[(0u32, 0u32, 0u32), (1, 2, 3), (u32::MAX, u32::MAX, u32::MAX), (1 << 28, 1 << 13, 255)] {
             v.push(RefVal::Pid { node: node.to_string(), id, serial, creation });
@@ -219,6 +220,26 @@ pub fn run(rep: &Report) -> serde_json::Value {
                         if !ok {
                             rep.violation("a map keyed by two identifiers that differ in one field loses or merges a key", json!({"decoder": which, "key_a": v.short(), "key_b": w.short(), "bytes": hex(&wire), "decoded": t.as_ref().map(|t| denote(t).short())}));
                         }
+                    }
+                }
+            }
+        }
+        // overwriting in place: x.clone_from(&y) and vec![x].clone_from(&vec![y]) leave exactly y, whatever form x had
+        {
+            let typed: Vec<(String, Vec<u8>, OwnedTerm)> = fs.iter().filter_map(|(l, fb, _)| { let mut w = vec![131u8]; w.extend_from_slice(fb); erltf::decode(&w).ok().map(|t| (l.clone(), w, t)) }).collect();
+            for (la, _, ta) in &typed {
+                for (lb, wb, tb) in &typed {
+                    rep.add("evaluations", 1);
+                    let mut x = ta.clone(); x.clone_from(tb);
+                    let mut vx = vec![ta.clone(), ta.clone()]; vx.clone_from(&vec![tb.clone(), tb.clone()]);
+                    let typed_ok = match (ta, tb) {
+                        (OwnedTerm::Pid(a), OwnedTerm::Pid(b)) => { let mut y = a.clone(); y.clone_from(b); let mut vy = vec![a.clone()]; vy.clone_from(&vec![b.clone()]); erltf::encode(&OwnedTerm::Pid(y)).ok().as_deref() == Some(&wb[..]) && erltf::encode(&OwnedTerm::Pid(vy.remove(0))).ok().as_deref() == Some(&wb[..]) }
+                        (OwnedTerm::Port(a), OwnedTerm::Port(b)) => { let mut y = a.clone(); y.clone_from(b); let mut vy = vec![a.clone()]; vy.clone_from(&vec![b.clone()]); erltf::encode(&OwnedTerm::Port(y)).ok().as_deref() == Some(&wb[..]) && erltf::encode(&OwnedTerm::Port(vy.remove(0))).ok().as_deref() == Some(&wb[..]) }
+                        (OwnedTerm::Reference(a), OwnedTerm::Reference(b)) => { let mut y = a.clone(); y.clone_from(b); let mut vy = vec![a.clone()]; vy.clone_from(&vec![b.clone()]); erltf::encode(&OwnedTerm::Reference(y)).ok().as_deref() == Some(&wb[..]) && erltf::encode(&OwnedTerm::Reference(vy.remove(0))).ok().as_deref() == Some(&wb[..]) }
+                        _ => true,
+                    };
+                    if erltf::encode(&x).ok().as_deref() != Some(&wb[..]) || erltf::encode(&vx[1]).ok().as_deref() != Some(&wb[..]) || !typed_ok {
+                        rep.violation("identifier not re-emitted byte-for-byte", json!({"id": v.short(), "context": "value overwritten in place with clone_from", "form_before": la, "form_written_over_it": lb, "typed_ok": typed_ok}));
                     }
                 }
             }
